@@ -350,7 +350,11 @@ where
                     c.emit("hg.coequalize_vertices", vec![h.enc(), qf.enc()], move || Self::op_hg_coequalize_vertices(&a, &qq));
                 }
                 _ => {
-                    let h = gen::hg(&mut c.rng, &p);
+                    let mut h = gen::hg(&mut c.rng, &p);
+                    if c.rng.chance(2, 3) {
+                        let k = gen::dagify(&mut c.rng, &mut h);
+                        c.knob(k);
+                    }
                     let a = h.clone();
                     c.emit("hg.is_acyclic", vec![h.enc()], move || Self::op_hg_is_acyclic(&a));
                 }
@@ -457,7 +461,11 @@ where
                     c.emit("oh.is_monogamous", vec![f.enc()], move || Self::op_oh_is_monogamous(&a));
                 }
                 _ => {
-                    let f = gen::oh(&mut c.rng, &p);
+                    let mut f = gen::oh(&mut c.rng, &p);
+                    if c.rng.chance(2, 3) {
+                        let k = gen::dagify(&mut c.rng, &mut f.h);
+                        c.knob(k);
+                    }
                     let a = f.clone();
                     c.emit("oh.is_acyclic", vec![f.enc()], move || Self::op_oh_is_acyclic(&a));
                 }
